@@ -13,6 +13,7 @@ import (
 	"net/http"
 	"net/http/httptest"
 	"reflect"
+	"regexp"
 	"strings"
 
 	"github.com/flamego/flamego"
@@ -248,13 +249,20 @@ func applyOp(tm inject.TypeMapper, o injOp) {
 	}
 }
 
+// errType finds the type the error names: the menu type whose Go spelling occurs in the message (the longest one, so
+// that "*main.T1" is not taken for "main.T1"), whatever the wording around it. Descriptions of the handler itself
+// ("func(main.N1, chan int) (int, string)", as the chain puts them into its panic message) are cut out first.
+var reFuncDesc = regexp.MustCompile(`func\([^()]*\)(?: \([^()]*\))?`)
+
 func errType(err error) string {
-	s := err.Error()
-	if i := strings.LastIndex(s, "for type "); i >= 0 {
-		t := s[i+len("for type "):]
-		return injTypeName(strings.TrimSpace(t))
+	s := reFuncDesc.ReplaceAllString(err.Error(), "func")
+	best, bestLen := "?", 0
+	for k, t := range injTypes {
+		if n := len(t.String()); n > bestLen && strings.Contains(s, t.String()) {
+			best, bestLen = k, n
+		}
 	}
-	return "?"
+	return best
 }
 
 func retsToStrings(vs []reflect.Value) []string {
